@@ -70,14 +70,15 @@ AcceptableInstr(s, env, addr, dps, labs) ==
       f == s.form
       eight == (f = "imm" /\ t.iw # 2) \/ (f = "mem" /\ s.force = "<")
       nat == CASE f = "imm" -> IF t.iw = 2 THEN -32768..65535 ELSE -128..255
-               [] f = "mem" -> IF s.force = "<" THEN 0..255 ELSE 0..65535
+               [] f = "mem" -> IF s.force = "<" THEN -128..255 ELSE 0..65535
                [] f \in {"extind", "rel"} -> 0..65535
                [] OTHER -> -32768..65535
       syms == SymsOfE(s.expr)
       kinds == IF f # "pcr" THEN {f}
                ELSE IF syms \cap labs # {} THEN {"pcrl"} ELSE IF syms # {} THEN {"pcrn", "pcrl"} ELSE {"pcrn"}
       E(w) == UNION {EncAll(Instr(s, k, w), addr, dps) : k \in kinds}
-  IN IF v \in nat /\ ~e.ovf THEN (IF E(v) = {} THEN RejectSt ELSE St("accept", E(v)))
+  IN IF f = "mem" /\ s.force = "<" /\ v \in -128..-1 THEN (IF E(v + 256) = {} THEN RejectSt ELSE St("either", E(v + 256)))
+     ELSE IF v \in nat /\ ~e.ovf THEN (IF E(v) = {} THEN RejectSt ELSE St("accept", E(v)))
      ELSE IF eight THEN RejectSt
      ELSE LET w == v % 65536 IN IF E(w) = {} THEN RejectSt ELSE St("either", E(w))
 
@@ -95,8 +96,10 @@ AcceptableData(s, env) ==
                                           IF ~e.ok THEN RejectSt ELSE IF e.v \in 0..65535 /\ ~e.ovf THEN St("accept", {<<>>}) ELSE St("either", {<<>>})
     [] OTHER -> St("accept", {<<>>})                 \* NAM, END, INCLUDE emit nothing
 
+\* form "raw": free text with no abstract form (fuzzing); only the clauses that need none apply (decodes, reserved, placed, image)
 Acceptable(s, env, addr, dps, labs) ==
-  IF s.mn \in Pseudo THEN AcceptableData(s, env)
+  IF s.form = "raw" THEN St("raw", {})
+  ELSE IF s.mn \in Pseudo THEN AcceptableData(s, env)
   ELSE IF s.mn \notin Mnemonics THEN RejectSt
   ELSE AcceptableInstr(s, env, addr, dps, labs)
 
@@ -145,6 +148,7 @@ Widen(prog, sz, fuel) ==
       st == [k \in DOMAIN prog |-> Acceptable(prog[k], env, ad[k], DpsAt(prog, env, k), labs)]
       bad == {k \in DOMAIN prog : st[k].must = "reject"}
   IN IF bad # {} THEN [must |-> "reject", sizes |-> sz, addrs |-> ad, bad |-> bad]
+     ELSE IF \E k \in DOMAIN prog : st[k].must = "raw" THEN [must |-> "either", sizes |-> sz, addrs |-> ad, bad |-> {}]
      ELSE LET nz == [k \in DOMAIN prog |-> Max2(sz[k], MinLen(st[k].encs))] IN
           IF nz = sz THEN [must |-> IF \E k \in DOMAIN prog : st[k].must = "either" THEN "either" ELSE "accept", sizes |-> sz, addrs |-> ad, bad |-> {}]
           ELSE IF fuel = 0 THEN [must |-> "either", sizes |-> sz, addrs |-> ad, bad |-> {}]
@@ -197,7 +201,7 @@ JudgeAccepted(t) ==
       dec(k) == LET d == Decode(obs[k].bytes) IN d.ok /\ d.len = Len(obs[k].bytes) /\ prog[k].mn \in d.mns
       symval(s) == LET js == {j \in DOMAIN t.symtab : t.symtab[j].s = s} IN IF js = {} THEN -1 ELSE t.symtab[CHOOSE j \in js : TRUE].v
       items ==
-           {Item("enc", k, cls(k), sym(k)) : k \in {j \in 1..n : st[j].must # "reject" /\ obs[j].bytes \notin st[j].encs}}
+           {Item("enc", k, cls(k), sym(k)) : k \in {j \in 1..n : st[j].must \in {"accept", "either"} /\ obs[j].bytes \notin st[j].encs}}
       \cup {Item("shouldreject", k, cls(k), sym(k)) : k \in {j \in 1..n : st[j].must = "reject"}}
       \cup {Item("decodes", k, cls(k), sym(k)) : k \in {j \in 1..n : prog[j].mn \in Mnemonics /\ ~dec(j)}}
       \cup {Item("reserved", k, cls(k), sym(k)) : k \in {j \in 1..(n - 1) : prog[j + 1].mn # "ORG" /\ obs[j + 1].addr # obs[j].addr + Len(obs[j].bytes)}}
